@@ -105,6 +105,11 @@ class Spectrum:
     @wave.setter
     def wave(self, value):
         value = np.asarray(value)
+        if value.dtype.kind == 'f' and value.dtype.itemsize < 8:
+            # wavelengths are held in double precision: unit conversions,
+            # differences and comparisons of a single or half precision grid
+            # would otherwise be carried out (and rounded) in that precision
+            value = value.astype(float)
 
         if np.any(value <= 0):
             raise ValueError('Wavelength values must be greater than zero')
